@@ -806,3 +806,96 @@ func replayC01(path string) int {
 	return 0
 }
 
+
+// runRealChains11: C11 on the real plugin chains (not only the synthetic handlers): a scripted
+// history that exhausts a range, and generated DHCPv4 configurations, through HandleMsg4 in fresh
+// processes; every reply is held against its request.
+func runRealChains11(c *Ctx) {
+	r := c.R
+	c.SetCases("From Verif Require Import Base Net Msg4 Msg6 Setup PluginRun Assembly AsmRun.", "AsmRun.mismatches")
+	c.shard = 12
+	files := map[string]string{"leases4.txt": c01Leases4, "leases6.txt": c01Leases6}
+	judge := func(spec chainSpec, res chainResult, scenario string) {
+		for i, o := range res.Outs {
+			if i >= len(spec.Dgrams) || spec.Dgrams[i].Proto != 4 {
+				continue
+			}
+			raw, _ := hex.DecodeString(spec.Dgrams[i].Hex)
+			req, perr := dhcpv4.FromBytes(raw)
+			input := map[string]interface{}{"scenario": scenario, "chain": chainNames(spec.Plugins4), "datagram_hex": spec.Dgrams[i].Hex, "history_length": i}
+			c.Evals++
+			answerable := perr == nil && req.OpCode == dhcpv4.OpcodeBootRequest &&
+				(req.MessageType() == dhcpv4.MessageTypeDiscover || req.MessageType() == dhcpv4.MessageTypeRequest)
+			if len(o.Sends) == 0 {
+				continue
+			}
+			if !answerable {
+				c.vio("C11", "reply-to-non-request", fmt.Sprintf("%s: chain [%s] answered a datagram that is not a parseable BOOTREQUEST of type DISCOVER/REQUEST", scenario, chainNames(spec.Plugins4)), input)
+				continue
+			}
+			pb, _ := hex.DecodeString(o.Sends[0].Payload)
+			rp, err := dhcpv4.FromBytes(pb)
+			if err != nil {
+				c.vio("C11", "reply-unparseable", err.Error(), input)
+				continue
+			}
+			bad := ""
+			switch {
+			case rp.OpCode != dhcpv4.OpcodeBootReply:
+				bad = "not a BOOTREPLY"
+			case rp.TransactionID != req.TransactionID:
+				bad = "transaction id"
+			case rp.HWType != req.HWType || !bytes.Equal(rp.ClientHWAddr, req.ClientHWAddr):
+				bad = "hardware type / address"
+			case rp.Flags != req.Flags:
+				bad = "flags"
+			case !rp.GatewayIPAddr.Equal(req.GatewayIPAddr):
+				bad = "giaddr"
+			case req.MessageType() == dhcpv4.MessageTypeDiscover && rp.MessageType() != dhcpv4.MessageTypeOffer:
+				bad = fmt.Sprintf("DISCOVER answered with message type %d (must be an OFFER)", rp.MessageType())
+			case req.MessageType() == dhcpv4.MessageTypeRequest && rp.MessageType() != dhcpv4.MessageTypeAck && rp.MessageType() != dhcpv4.MessageTypeNak:
+				bad = fmt.Sprintf("REQUEST answered with message type %d (must be an ACK or a NAK)", rp.MessageType())
+			}
+			for _, code := range []uint8{61, 82} {
+				if v := req.Options[code]; len(v) > 0 && !bytes.Equal(rp.Options[code], v) {
+					bad = fmt.Sprintf("option %d not echoed", code)
+				}
+			}
+			if bad != "" {
+				c.vio("C11", "reply-mismatch", fmt.Sprintf("%s: chain [%s]: the reply does not match its request: %s", scenario, chainNames(spec.Plugins4), bad), input)
+			}
+		}
+	}
+	mk4 := func(mt byte, chaddr []byte) chainDgram {
+		s := req4spec{op: 1, mtype: []byte{mt}, chaddr: chaddr, xid: uint32(r.U64()), bflag: true}
+		return chainDgram{Proto: 4, Hex: hex.EncodeToString(buildReq4(s)), Oob: 7001, Peer: "0.0.0.0"}
+	}
+	{
+		var dg []chainDgram
+		for i := 0; i < 6; i++ { // a 3-address range: the fourth and later clients find it exhausted
+			dg = append(dg, mk4([]byte{1, 3}[i%2], []byte{2, 1, 0, 0, 0, byte(i)}))
+		}
+		dg = append(dg, mk4(1, []byte{2, 1, 0, 0, 0, 9}), mk4(3, []byte{2, 1, 0, 0, 0, 0}), mk4(8, []byte{2, 1, 0, 0, 0, 1}))
+		spec := chainSpec{Files: files, WatchdogMs: 3000, Dgrams: dg,
+			Plugins4: []chainPlug{{"server_id", []string{"10.0.0.1"}}, {"range", []string{"$DIR/leases.sqlite3", "10.0.0.10", "10.0.0.12", "1h"}}, {"dns", []string{"1.1.1.1"}}}}
+		if res, err := runChainChild(spec, 60*time.Second); err == nil && res.SetupErr == "" {
+			judge(spec, res, "range exhausted")
+			emitAsmCases(c, spec, res)
+		}
+	}
+	for k := 0; k < c.Scale(25, 600); k++ {
+		spec := chainSpec{Files: files, Lif: []int{0, 7001}[r.Intn(2)], WatchdogMs: 3000, Plugins4: genChain(c, c01Pool4, "")}
+		n := 6 + r.Intn(30)
+		for i := 0; i < n; i++ {
+			raw, _ := genDgram4(c)
+			spec.Dgrams = append(spec.Dgrams, chainDgram{Proto: 4, Hex: hex.EncodeToString(raw), Oob: []int{-1, 0, 7001, 7002}[r.Intn(4)], Peer: "0.0.0.0"})
+		}
+		res, err := runChainChild(spec, 90*time.Second)
+		if err != nil || res.SetupErr != "" {
+			continue
+		}
+		judge(spec, res, "generated")
+		emitAsmCases(c, spec, res)
+		c.Eval(fmt.Sprintf("real11/%s/%d", chainNames(spec.Plugins4), n), true)
+	}
+}
